@@ -263,10 +263,11 @@ def gen_retry_spec(rng: random.Random) -> dict:
     return spec
 
 
-def gen_wait_spec(rng: random.Random, retried: bool | None = None) -> dict:
+def gen_wait_spec(rng: random.Random, retried: bool = False) -> dict:
     """steps suspended in wait_for_event; responses (duplicates, non-matching, early/late) arrive from outside.
-    `retried`: the waiting step has a retry policy and fails before and/or after the wait, optionally on a lineage
-    whose exhausted failures go to a @catch_error handler that sends the event back (None: sometimes)"""
+    `retried` (family "wait_retry"): the waiting step has a retry policy and fails before and/or after the wait, optionally
+    on a lineage whose exhausted failures go to a @catch_error handler that sends the event back.  Off by default so that
+    the streams of the checks built on the plain wait family stay what they were."""
     reqk = rng.choice([None, 1, 2])
     timeout = rng.choice([None, 5, 20])
     wty = rng.choice([3, 11])
@@ -304,7 +305,7 @@ def gen_wait_spec(rng: random.Random, retried: bool | None = None) -> dict:
         ks = rng.sample([1, 2, 3], rng.randint(2, 3))
         start["script"] = [["send", 5, rng.choice([None, "s02"]), k] for k in ks] + [["ret", "none"]]
     steps = [start, waiter, other]
-    if retried or (retried is None and rng.random() < 0.3):
+    if retried:
         steps += _retried_wait(rng, waiter, own)
     rng.shuffle(steps)
     ext = []
